@@ -460,6 +460,16 @@ def foreign_items(kinds, model):
             its.append(typedef("TypeLayout", [], path("LayoutInfo"), None, True))
         its.append(struct("ModuleHeader", [], [("layout", ptr(path("TypeLayout"), True)), ("version", prim("u32"))], [" What a module exports for a load-time layout check."], True))
         args.append(("header", ptr(path("ModuleHeader"), True)))
+    # user declarations whose documentation is not ASCII, resp. mentions words of the other language in the middle of a line
+    if "nonascii" in kinds:
+        its.append(struct("Mesure", [], [("celsius", prim("u32")), ("kelvin", prim("u64"))],
+                          [" Temp\u00e9rature en \u00b0C (mesure \u00abbrute\u00bb, \u00b10.5 K) \u2014 \u6e2c\u5b9a\u5024."], True))
+        args.append(("mesure", ptr(path("Mesure"), True)))
+    if "cppwords" in kinds:
+        its.append(struct("Mixer", [], [("alpha", prim("u32")), ("beta", prim("u32"))],
+                          [" Blend two values using alpha = `t` / 255 and beta = 255 - alpha.",
+                           " Not meant here: template<typename T> struct Mixer; nor #include <cstdint> nor typedef struct Mixer Mixer;"], True))
+        args.append(("mixer", ptr(path("Mixer"), True)))
     # a large number of plain user records (a header well beyond one pipe buffer of 64 KiB), reached through one table struct
     if "bulk" in kinds:
         nrec = 1200
